@@ -264,7 +264,11 @@ pub fn scenario(seed: u64, ka_heavy: bool) -> Made {
     let mut regs: Vec<RegInfo> = Vec::new();
     for s in 0..n_svcs {
         let ty = *rng.pick(&["_t._udp.local.", "_t._udp.local.", "_http._tcp.local.", "_p._sub._t._udp.local."]);
-        let inst = if rng.chance(1, 3) { format!("Svc{s}") } else { format!("svc{s}") };
+        let inst = match rng.below(9) {
+            0..=2 => format!("Svc{s}"),
+            3 => format!("\u{c9}cole{s}"),
+            _ => format!("svc{s}"),
+        };
         let host = if shared { "Box.local.".to_string() } else { format!("box{s}.local.") };
         let addrs = if shared {
             host_addrs.clone()
@@ -378,6 +382,12 @@ pub fn scenario(seed: u64, ka_heavy: bool) -> Made {
                             }
                             1 => k.class = 3,
                             2 => k.name = case_variant(&mut rng, &k.name),
+                            3 => {
+                                // same owner, same RDATA, another type: a CNAME to the instance is not the PTR
+                                if k.rtype == wire::T_PTR {
+                                    k.rtype = wire::T_CNAME;
+                                }
+                            }
                             _ => {}
                         }
                         if rng.chance(1, 2) {
@@ -385,6 +395,14 @@ pub fn scenario(seed: u64, ka_heavy: bool) -> Made {
                         }
                         q.answers.push(k);
                     }
+                }
+                // what ordinary stub resolvers append: an EDNS0 OPT pseudo-record (root name, no RDATA or one option),
+                // or a record of a type the daemon has never heard of
+                match rng.below(10) {
+                    0 => q.additionals.push(wire::rec(&Vec::new(), 41, 1232, 0, RData::Raw(Vec::new()))),
+                    1 => q.additionals.push(wire::rec(&Vec::new(), 41, 4096, 0, RData::Raw(vec![0, 10, 0, 8, 1, 2, 3, 4, 5, 6, 7, 8]))),
+                    2 => q.additionals.push(wire::rec(&wire::name("whatever.local"), 65, 1, 120, RData::Raw(vec![0, 1, 0, 0, 1, 0, 3, 2, b'h', b'2']))),
+                    _ => {}
                 }
                 // is the daemon idle at this instant?
                 let wake = w.hosts[h].ctx.lock().wakeup;
